@@ -71,7 +71,7 @@ DyingTarget(e) ==
        IF Len(e.frames) > 0 /\ e.frames[1].qid \in DOMAIN q /\ q[e.frames[1].qid].st = "inflight"
           /\ q[e.frames[1].qid].srv \in Dying THEN q[e.frames[1].qid].srv ELSE 0
   ELSE IF e.e = "sk" /\ e.op = "close" THEN
-       IF e.fd \in DOMAIN fdi /\ fdi[e.fd].srv \in Dying THEN fdi[e.fd].srv ELSE 0
+       IF e.fd \in DOMAIN fdi /\ fdi[e.fd].srv \in Dying /\ ~fdi[e.fd].err THEN fdi[e.fd].srv ELSE 0
   ELSE IF e.e = "sk" /\ e.op = "open" THEN
        \* a connection is being opened while only the list edit itself is in progress (no callback is running) and nothing
        \* waits to be sent: it can only be for a query requeued from the dying server whose turn has come -- the first
@@ -191,7 +191,8 @@ HSendFrame(e, f) ==
        IN /\ q' = DropDoneProbes(q3)
           /\ srv' = FailServerIn(sv1, dest)
           /\ owedF' = [owed1 EXCEPT ![dest] = @ + 1]
-          /\ UNCHANGED <<cfg, now, fdi, owedO, proc, oos, xvars>> /\ Acc
+          /\ fdi' = [fdi EXCEPT ![fd].err = TRUE]
+          /\ UNCHANGED <<cfg, now, owedO, proc, oos, xvars>> /\ Acc
   ELSE OutOfScope
 
 HSend(e) ==
@@ -210,7 +211,8 @@ ConnFailure(fd, err) ==
   /\ q' = DropDoneProbes(RequeueFd(q, fd, err))
   /\ srv' = FailServer(s)
   /\ owedF' = [owedF EXCEPT ![s] = @ + 1]
-  /\ UNCHANGED <<cfg, now, fdi, owedO, oos>>
+  /\ fdi' = [fdi EXCEPT ![fd].err = TRUE]        \* it will be closed because of this error
+  /\ UNCHANGED <<cfg, now, owedO, oos>>
 
 HPacket(fd, p) ==      \* leaves proc and xvars to the caller
   LET s == fdi[fd].srv IN
@@ -306,7 +308,7 @@ OpenFailed(e) ==
 HSk(e) ==
   CASE e.op = "open" ->
          IF e.res = "ok" THEN
-              /\ fdi' = fdi @@ (e.fd :> [srv |-> 0, tcp |-> (e.tcp = 1)])
+              /\ fdi' = fdi @@ (e.fd :> [srv |-> 0, tcp |-> (e.tcp = 1), err |-> FALSE])
               /\ tcpin' = tcpin @@ (e.fd :> [avail |-> 0, pk |-> <<>>])
               /\ UNCHANGED <<cfg, now, srv, q, owedF, owedO, proc, oos, toks, openfail, newtry>> /\ Acc
          ELSE OpenFailed(e)
